@@ -385,6 +385,14 @@ func (s *Sim) afterMsg(a *Action, res *chain.TxResult) {
 			s.Dids = append(s.Dids, &DidRef{Kind: "sid", Acct: acct, Did: "did:sid:" + root, Kid: chain.SidKid(root, root, "signing"), Priv: priv, Root: root, Version: root, Ts: a.Ts})
 			a.Note = fmt.Sprintf("did#%d", len(s.Dids)-1)
 		}
+	case "did_update":
+		// key rotation: later proposals of this DID are signed with the new key under the new document
+		if a.Owner >= 0 && a.Owner < len(s.Dids) && s.Dids[a.Owner].Kind == "sid" && a.Extra["_newDoc"] != "" {
+			d := s.Dids[a.Owner]
+			d.Priv = sidPriv(d.Acct, d.Ts, atoi(a.Extra["gen"]))
+			d.Version = a.Extra["_newDoc"]
+			d.Kid = chain.SidKid(d.Root, d.Version, "signing")
+		}
 	case "gov_param":
 		var r govv1beta1.MsgSubmitProposalResponse
 		if err := r.Unmarshal(res.Data); err == nil {
